@@ -183,6 +183,7 @@ def _wrap_fn(
         getattr(func, "__call__", None)
     ):
 
+        @functools.wraps(func)
         async def inner_async(*args: Any, **kwargs: Any) -> Any:
             errs: Dict[str, Invalid] = {}
             var_args_errs: List[Tuple[Any, Invalid]] = []
